@@ -149,8 +149,11 @@ IgnoreNeverFails == c.k = "encode" => (c.pol # "strict" => Encode(c.enc, c.t, c.
 -----------------------------------------------------------------------------
 (* to_slug as a transducer over character classes *)
 SlugClasses == {"lower", "upper", "digit", "underscore", "hyphen", "space", "tab", "nbsp", "punct",
-                "accented", "compat_letter", "compat_digit", "nonascii_other"}
-Word == {"lower", "upper", "digit", "underscore", "accented", "compat_letter", "compat_digit"}
+                "accented", "compat_letter", "compat_digit", "nonascii_other",
+                \* a character whose compatibility decomposition is a digit wrapped in ASCII punctuation (U+2474 "(1)",
+                \* U+2488 "1."): the punctuation goes like any other, the digit stays
+                "compat_punct_digit"}
+Word == {"lower", "upper", "digit", "underscore", "accented", "compat_letter", "compat_digit", "compat_punct_digit"}
 Blank == {"space", "tab", "nbsp"}
 \* step 1+2: NFKD to ASCII and removal of everything but word characters, blanks and hyphens
 Keep(q) == SelectSeq([i \in 1..Len(q) |-> [cls |-> q[i], src |-> i]],
